@@ -316,6 +316,11 @@ func (g *gate) SendRequest(ctx context.Context, addr string, req *tikvrpc.Reques
 		return nil, context.Canceled
 	}
 	if act, ok := g.inj[g.n]; ok {
+		if act.Kind == "nobody" {
+			// a response without a body (never executed): every call must turn it into ErrBodyMissing
+			g.lays = append(g.lays, "FAIL")
+			return &tikvrpc.Response{}, nil
+		}
 		if act.Kind == "fail" {
 			// the store answers with an application error: the request is NOT executed
 			var r interface{}
@@ -326,6 +331,14 @@ func (g *gate) SendRequest(ctx context.Context, addr string, req *tikvrpc.Reques
 				r = &kvrpcpb.RawBatchDeleteResponse{Error: "verif: injected failure"}
 			case tikvrpc.CmdRawDeleteRange:
 				r = &kvrpcpb.RawDeleteRangeResponse{Error: "verif: injected failure"}
+			case tikvrpc.CmdRawGet:
+				r = &kvrpcpb.RawGetResponse{Error: "verif: injected failure"}
+			case tikvrpc.CmdRawPut:
+				r = &kvrpcpb.RawPutResponse{Error: "verif: injected failure"}
+			case tikvrpc.CmdRawDelete:
+				r = &kvrpcpb.RawDeleteResponse{Error: "verif: injected failure"}
+			case tikvrpc.CmdRawCompareAndSwap:
+				r = &kvrpcpb.RawCASResponse{Error: "verif: injected failure"}
 			}
 			if r != nil {
 				g.lays = append(g.lays, "FAIL")
@@ -491,8 +504,10 @@ func errKind(err error) string {
 		return "err limit"
 	case strings.Contains(m, "atomic"):
 		return "err atomic"
-	case strings.Contains(m, "injected failure"):
+	case strings.Contains(m, "injected failure"), strings.Contains(m, "body is missing"):
 		return "err injected"
+	case strings.Contains(m, "is not equal to the len of values"):
+		return "err args"
 	case strings.Contains(m, "unsupported this request type"):
 		return "err unsupported"
 	}
@@ -526,7 +541,8 @@ func runSeq(sq Seq, out *bytes.Buffer) {
 	for _, s := range sq.Splits {
 		w.apply(Topo{Kind: "split", Key: s})
 	}
-	cli.SetAtomicForCAS(!sq.NonAt)
+	atomicNow := !sq.NonAt
+	cli.SetAtomicForCAS(atomicNow)
 	// handleKvRawChecksum reads column family "CF_DEFAULT" whatever the request says; column
 	// families are outside C11, so everything runs in that one family unless the spec names another
 	cf := sq.CF
@@ -545,6 +561,12 @@ func runSeq(sq Seq, out *bytes.Buffer) {
 		_ = cli.Delete(ctx, []byte("zz"))
 	}
 	for idx, op := range sq.Ops {
+		if op.Name == "setatomic" {
+			// the client's atomic-mode field: for_cas of every later write, and whether CAS is allowed
+			atomicNow = op.KeyOnly
+			cli.SetAtomicForCAS(atomicNow)
+			continue
+		}
 		if op.Name == "setcf" {
 			// the client's own family field: read by every later call that has no per-call option
 			cf = op.CF
@@ -596,14 +618,18 @@ func runSeq(sq Seq, out *bytes.Buffer) {
 		if op.Exact && len(op.Inj) == 0 {
 			exact = 1
 		}
+		atomicFlag := 0
+		if atomicNow {
+			atomicFlag = 1
+		}
 		opcf := op.CF
 		if opcf == "" {
 			opcf = cf
 		}
-		fmt.Fprintf(out, "OP\t%d\t%d\t%s\t%s\tC=%s\tL=%s\tB=%s\tN=%d,%d,%d\tW=%s\t=>\t%s\n", sq.ID, idx, op.Name, args, opcf, lays, bats, g.n, g.rerrs, exact, wire, res)
+		fmt.Fprintf(out, "OP\t%d\t%d\t%s\t%s\tC=%s\tA=%d\tL=%s\tB=%s\tN=%d,%d,%d\tW=%s\t=>\t%s\n", sq.ID, idx, op.Name, args, opcf, atomicFlag, lays, bats, g.n, g.rerrs, exact, wire, res)
 		stop := g.exceeded
 		g.mu.Unlock()
-		tolerated := res == "err injected" || res == "err atomic" || res == "err limit"
+		tolerated := res == "err injected" || res == "err atomic" || res == "err limit" || res == "err args"
 		// ("err unsupported" ends the sequence: the unanswerable GetKeyTTL leaves the store marked unreachable)
 		if stop || (strings.HasPrefix(res, "err") && !tolerated) || strings.HasPrefix(res, "panic") {
 			// no call of these sequences may fail: the oracle has failed on this call, and the
@@ -687,6 +713,9 @@ func execOp(ctx context.Context, cli *rawkv.Client, op Op) (string, string) {
 		if len(op.TTLs) > 0 {
 			ttl = op.TTLs[0]
 		}
+		if len(op.TTLs) == 0 {
+			return "", okerr(cli.Put(ctx, unhx(op.Keys[0]), unhx(op.Vals[0]), o...))
+		}
 		return "", okerr(cli.PutWithTTL(ctx, unhx(op.Keys[0]), unhx(op.Vals[0]), ttl, o...))
 	case "get":
 		v, err := cli.Get(ctx, unhx(op.Keys[0]), o...)
@@ -708,6 +737,9 @@ func execOp(ctx context.Context, cli *rawkv.Client, op Op) (string, string) {
 	case "del":
 		return "", okerr(cli.Delete(ctx, unhx(op.Keys[0]), o...))
 	case "bput":
+		if len(op.TTLs) == 0 {
+			return "", okerr(cli.BatchPut(ctx, unhxs(op.Keys), unhxs(op.Vals), o...))
+		}
 		return "", okerr(cli.BatchPutWithTTL(ctx, unhxs(op.Keys), unhxs(op.Vals), op.TTLs, o...))
 	case "bget":
 		vals, err := cli.BatchGet(ctx, unhxs(op.Keys), o...)
@@ -998,8 +1030,33 @@ func genSeq(id int, r *rand.Rand, nops int) Seq {
 		failing := false
 		if class == "fail" && (op.Name == "bput" || op.Name == "bdel" || op.Name == "drange") && r.Intn(2) == 0 {
 			// the i-th request of this call fails for good; a full scan right after shows what was done
-			op.Inj = append(op.Inj, Inject{At: 1 + r.Intn(3), Act: Topo{Kind: "fail"}})
+			kind := "fail"
+			if r.Intn(4) == 0 {
+				kind = "nobody"
+			}
+			op.Inj = append(op.Inj, Inject{At: 1 + r.Intn(3), Act: Topo{Kind: kind}})
 			failing = true
+		}
+		if class == "fail" && (op.Name == "get" || op.Name == "put" || op.Name == "del" || op.Name == "cas" || op.Name == "scan" || op.Name == "rscan" || op.Name == "cksum") && r.Intn(3) == 0 {
+			// single-request calls and range reads: an application error / a body-less response must surface as the call's error
+			kind := "fail"
+			if r.Intn(2) == 0 || op.Name == "scan" || op.Name == "rscan" || op.Name == "cksum" {
+				kind = "nobody"
+			}
+			op.Inj = append(op.Inj, Inject{At: 1 + r.Intn(2), Act: Topo{Kind: kind}})
+			failing = true
+		}
+		if class == "fail" && op.Name == "bput" && !failing && r.Intn(6) == 0 && len(op.Keys) > 0 {
+			// argument errors: refused before any request
+			if r.Intn(2) == 0 {
+				op.Vals = op.Vals[:len(op.Vals)-1]
+			} else {
+				op.TTLs = make([]uint64, len(op.Keys)+1)
+			}
+		}
+		if class == "nonatomic" && r.Intn(5) == 0 {
+			// atomic mode is a client field: it may change between calls
+			sq.Ops = append(sq.Ops, Op{Name: "setatomic", KeyOnly: r.Intn(2) == 0})
 		}
 		sq.Ops = append(sq.Ops, op)
 		if failing || op.CF != "" && r.Intn(2) == 0 {
